@@ -23,14 +23,14 @@ def scale(tier, quick, thorough):
 # --------------------------------------------------------------------------------------
 
 def plan_C09(tier):
-    n = scale(tier, 9000, 500000)
+    n = scale(tier, 9000, 450000)
     return {
         "backends": ["c", "py"],
         "subs": [
             {"name": "fault_free", "cfg": {"fault_free": True, "bracket_rate": 0.0}, "runs": n // 3},
             {"name": "faults", "cfg": {"bracket_rate": 0.05}, "runs": n - n // 3},
         ] + ([{"name": "long_histories", "cfg": {"bracket_rate": 0.02, "force": {"nops": 80, "restart_rate": 0.35}}, "runs": n // 10}] if tier == "thorough" else []),
-        "budget_s": scale(tier, 50, 3000),
+        "budget_s": scale(tier, 50, 1500),
     }
 
 
@@ -57,7 +57,7 @@ def evidence_C09(agg, tier):
 
 
 def plan_C08(tier):
-    n = scale(tier, 2000, 200000)
+    n = scale(tier, 2000, 90000)
     return {
         "backends": ["c", "py"],
         "subs": [
@@ -65,7 +65,7 @@ def plan_C08(tier):
             {"name": "faults", "cfg": {}, "runs": n - n // 4, "batch": 20},
         ] + ([{"name": "long_histories", "cfg": {"force": {"nops": 90, "prelude": 300, "state_rate": 0.2, "variant_rate": 0.25, "repeat_rate": 0.15}},
                "runs": n // 10, "batch": 10}] if tier == "thorough" else []),
-        "budget_s": scale(tier, 50, 3300),
+        "budget_s": scale(tier, 50, 1500),
     }
 
 
@@ -90,14 +90,14 @@ def evidence_C08(agg, tier):
 
 
 def plan_C20(tier):
-    n = scale(tier, 2000, 400000)
+    n = scale(tier, 2000, 70000)
     return {
         "backends": ["c", "py"],
         "subs": [
             {"name": "schedules", "cfg": {}, "runs": n, "batch": 25},
         ] + ([{"name": "many_threads", "cfg": {"force": {"nthreads": 5, "ops_per_thread": 12, "long_rate": 0.3, "repeat_rate": 0.25}},
                "runs": n // 10, "batch": 10}] if tier == "thorough" else []),
-        "budget_s": scale(tier, 50, 3300),
+        "budget_s": scale(tier, 50, 1500),
     }
 
 
@@ -133,15 +133,15 @@ def post_C20(cov, stage_dir):
 
 
 def plan_C19(tier):
-    n = scale(tier, 480, 24000)
-    ni = scale(tier, 3000, 200000)
+    n = scale(tier, 480, 20000)
+    ni = scale(tier, 3000, 150000)
     subs = [
-        {"name": "alloc_faults", "machine": "c19", "backends": ["c"], "cfg": {"max_m": 3, "multi": 4}, "runs": n, "batch": 6, "share": scale(tier, 28, 1500)},
+        {"name": "alloc_faults", "machine": "c19", "backends": ["c"], "cfg": {"max_m": 3, "multi": 4}, "runs": n, "batch": 6, "weight": 10.0},
         {"name": "alloc_faults_debug_allocator", "machine": "c19", "backends": ["c"], "env": {"PYTHONMALLOC": "debug"},
-         "cfg": {"max_m": 2, "multi": 3}, "runs": scale(tier, 96, 8000), "batch": 6, "share": scale(tier, 10, 900)},
-        {"name": "input_monitor", "machine": "c19i", "cfg": {}, "runs": ni, "batch": 40, "share": scale(tier, 12, 600)},
+         "cfg": {"max_m": 2, "multi": 3}, "runs": scale(tier, 96, 5000), "batch": 6, "weight": 20.0},
+        {"name": "input_monitor", "machine": "c19i", "cfg": {}, "runs": ni, "batch": 40, "weight": 0.35},
     ]
-    return {"backends": ["c", "py"], "subs": subs, "budget_s": scale(tier, 55, 3300)}
+    return {"backends": ["c", "py"], "subs": subs, "budget_s": scale(tier, 50, 1500)}
 
 
 def evidence_C19(agg, tier):
